@@ -12,7 +12,7 @@ import programs
 
 EXPORT_BODY = r'''
 \* one line per maximal user-level history that ends with a command
-Export == (Quiet /\ Len(hist) = MaxHist /\ hist[Len(hist)].a \in {"cmd", "query", "crash"})
+Export == (Quiet /\ Len(hist) = MaxHist /\ hist[Len(hist)].a \in {"cmd", "query", "crash", "par"})
               => PrintT("@@" \o ToJson(hist))
 '''
 
@@ -69,9 +69,9 @@ def group_histories(hists):
 
 def interesting(inp, min_cmds=2):
     """non-trivial history input: at least min_cmds commands, one of them a build"""
-    cmds = [s for s in inp if s[0] in ('cmd', 'query', 'crash')]
-    builds = [s for s in inp if s[0] in ('cmd', 'crash')]
-    return len(builds) >= 1 and len(cmds) >= min_cmds
+    cmds = [s for s in inp if s[0] in ('cmd', 'query', 'crash', 'par')]
+    builds = [s for s in inp if s[0] in ('cmd', 'crash', 'par')]
+    return len(builds) >= 1 and (len(cmds) >= min_cmds or any(s[0] == 'par' for s in inp))
 
 
 def replay_all(prog, groups, bindir, root, nworkers=8, log_mode=None, keep_failed=True, cmd_timeout=60, cats=None,
